@@ -397,8 +397,18 @@ func init() {
 		},
 		"sort.Search": sortSearch,
 	}
-	for _, n := range []string{"fmt.Fprint", "fmt.Fprintln", "fmt.Printf", "fmt.Println"} {
+	for _, n := range []string{"fmt.Fprint", "fmt.Fprintln"} {
 		intrinsics[n] = outUnknown
+	}
+	for _, n := range []string{"fmt.Printf", "fmt.Println", "fmt.Print"} {
+		name := n
+		intrinsics[n] = func(a *Act, st *State, c *ssa.Function, x []Val, p tokenPos) Val {
+			// a write to the process's standard output: forbidden in a function declared quiet
+			if a.top.fc != nil && a.top.fc.Quiet && !a.spec {
+				a.oblige(st, "stdout", name, p, "no write to the process's standard output ("+name+") in a quiet function", "false")
+			}
+			return outUnknown(a, st, c, x, p)
+		}
 	}
 	intrinsics["io.WriteString"] = func(a *Act, st *State, c *ssa.Function, x []Val, p tokenPos) Val {
 		// ghost output counter: the number of runes written so far (to any writer)
